@@ -686,13 +686,20 @@ class Shape:
                 sv = ("path", "std::cmp::Ordering::Greater")
         if isinstance(sv, tuple) and sv[0] in ("int", "path", "bool", "none") and (sv[0] != "int" or isinstance(sv[1], int)):
             for a in arms:
-                if "guard" in a:
-                    sel = None
-                    break
                 hit = self.pat_hit(a["pat"], sv)
                 if hit is None:
                     sel = None
                     break
+                if hit and "guard" in a:
+                    # a guarded arm is taken only when its guard is known to hold
+                    e1 = dict(env)
+                    self.bind(a["pat"], sv, e1)
+                    gv = self.ev(a["guard"], e1, body)
+                    if isinstance(gv, tuple) and gv[0] == "bool" and gv[1] in (True, False):
+                        hit = gv[1]
+                    else:
+                        sel = None
+                        break
                 if hit:
                     sel = a
                     break
